@@ -240,7 +240,7 @@ class C13(Check):
     def strategy(self, tier):
         @st.composite
         def s(draw):
-            case = draw(G.cases(feats=BASE_FEATS, clean=True, n_scheds=1, min_nodes=2,
+            case = draw(G.cases(feats=BASE_FEATS, clean=True, n_scheds=1, min_nodes=2, collab_scheds=True,
                                 max_nodes=8 if tier == 'quick' else 10))
             case['collab'] = draw(collabs())
             case['all_points'] = tier == 'thorough'
